@@ -270,6 +270,9 @@ func (eng *Engine) buildIntrinsics() {
 	for k, v := range reflectValueIntrinsics() {
 		bigIntr[k] = v
 	}
+	for k, v := range reflectValueIntrinsics2() {
+		bigIntr[k] = v
+	}
 	all := allFunctions(eng.prog)
 	for fn := range all {
 		name := fn.String()
@@ -325,6 +328,14 @@ func (eng *Engine) buildIntrinsics() {
 		}
 		if in := reflectIntrinsic(eng, fn, name); in != nil {
 			eng.intr[fn] = in
+			continue
+		}
+		if reflectOutsideModel(fn) {
+			nm := name
+			eng.intr[fn] = func(it *Interp, f *ssa.Function, args []Value) Value {
+				it.unsupported("reflect function outside the model: " + nm)
+				return Value{}
+			}
 		}
 	}
 }
